@@ -30,6 +30,10 @@ type h2cCase struct {
 	Reuse []h2cPair `json:"reuse,omitempty"`
 	// Conc: calls executed simultaneously, one goroutine each, on buffers they own.
 	Conc []h2cPair `json:"concurrent,omitempty"`
+	// Uniform (Fn == "pipeline"): chosen expander output (48 or 96 bytes) pushed through the library's own reduction, map
+	// and isogeny steps, i.e. everything of hash_to_curve after the hash. Hashing cannot steer these bytes; choosing them
+	// reaches the thin sets on which the reduction or the map may err.
+	Uniform string `json:"uniform,omitempty"`
 }
 
 type h2cPair struct {
@@ -75,7 +79,7 @@ func init() {
 			"DST lengths on both sides of the 255-byte oversize rule (1,2,15-17,...,253-258,300,511,512,1000), nil vs empty message, nil and empty DST (must panic), DST/message as sub-slices with spare capacity, the RFC suite DSTs, PRNG (msg,DST) pairs. " +
 			"Oracle: an independent transcription of RFC 9380 (expand_message_xmd 5.3.1/5.3.3, hash_to_field, the non-optimised SSWU of 6.6.2, the E.1 rational map, affine addition) in math/big + crypto/sha256, self-validated on the RFC vectors; " +
 			"the result must encode identically, be a valid curve point, and be identical on a second call with the same content in a different slice layout. " +
-			"Also: DSTs of 65535..196863 bytes (lengths that wrap in 16 bits); buffer-reuse sequences (successive messages/DSTs written into the same two buffers, same and different lengths, short and oversize); concurrent batches (8 goroutines hashing simultaneously on buffers they own). Branch outcomes (gx1 square or not for each u, sign fix-up direction) are read from the oracle and counted. " +
+			"Also: DSTs of 65535..196863 bytes (lengths that wrap in 16 bits); buffer-reuse sequences (successive messages/DSTs written into the same two buffers, same and different lengths, short and oversize); concurrent batches (8 goroutines hashing simultaneously on buffers they own); pipeline cases: chosen expander outputs (48/96 bytes: fold-resonant high limbs, structured halves, PRNG) pushed through the library's own hash_to_field reduction, SSWU, isogeny and final addition, because hashing cannot steer those bytes. Branch outcomes (gx1 square or not for each u, sign fix-up direction) are read from the oracle and counted. " +
 			"non-trivial = every non-panicking case; distinct by (fn, msg, dst).",
 		NewCase:  func() any { return &h2cCase{} },
 		Generate: c08Generate,
@@ -83,7 +87,7 @@ func init() {
 		Require: func(string) map[string]int64 {
 			return map[string]int64{
 				"fn:H2G": 1000, "fn:E2G": 500, "dst:oversize": 100, "dst:len=255": 5, "dst:len=256": 5, "panic:empty-dst": 6,
-				"h2g:sq-sq": 50, "h2g:sq-nsq": 50, "h2g:nsq-sq": 50, "h2g:nsq-nsq": 50, "sswu:flipped": 100, "sswu:not-flipped": 100, "layout:spare8": 50, "layout:interior": 50, "dst:huge": 8, "reuse-sequences": 100, "reuse-calls": 300, "concurrent-batches": 4,
+				"h2g:sq-sq": 50, "h2g:sq-nsq": 50, "h2g:nsq-sq": 50, "h2g:nsq-nsq": 50, "sswu:flipped": 100, "sswu:not-flipped": 100, "layout:spare8": 50, "layout:interior": 50, "dst:huge": 8, "reuse-sequences": 100, "reuse-calls": 300, "concurrent-batches": 4, "pipeline": 500,
 			}
 		},
 	})
@@ -203,7 +207,71 @@ func h2cGenerate(c *mon.Ctx, fns []string, nq, nt int) {
 	})
 }
 
-func c08Generate(c *mon.Ctx) { h2cGenerate(c, []string{"H2G", "E2G"}, 30000, 3000000) }
+func c08Generate(c *mon.Ctx) {
+	h2cGenerate(c, []string{"H2G", "E2G"}, 30000, 3000000)
+
+	wr := gen.WideResonant(oracle.P)
+	for i, b := range wr {
+		if i%c.N(3, 1) != int(c.Seed%uint64(c.N(3, 1))) {
+			continue
+		}
+
+		one := mon.H(b)
+		two := mon.H(append(append([]byte{}, b...), wr[(i*7+3)%len(wr)]...))
+		c.Structured(func() any { return &h2cCase{Fn: "pipeline", Uniform: one, Class: "pipeline"} })
+		c.Structured(func() any { return &h2cCase{Fn: "pipeline", Uniform: two, Class: "pipeline"} })
+	}
+
+	c.Random(c.N(2000, 200000), func(r *gen.Rng) any {
+		return &h2cCase{Fn: "pipeline", Uniform: mon.H(r.Bytes(48 * (1 + r.Intn(2)))), Class: "pipeline"}
+	})
+}
+
+// c08RunPipeline pushes chosen uniform bytes through the library's hash_to_field reduction, SSWU and isogeny (and, for 96
+// bytes, the final addition) and compares with the oracle on the same bytes.
+func c08RunPipeline(c *mon.Ctx, cs *h2cCase) {
+	u := mon.UnH(cs.Uniform)
+
+	c.Count("pipeline")
+	c.Eval(1)
+
+	var (
+		got  *secp256k1.Element
+		want oracle.Pt
+	)
+
+	pan, pv := mon.Call(func() {
+		for i := 0; i+48 <= len(u); i += 48 {
+			fe := field.New().HashToFieldElement([48]byte(u[i : i+48]))
+			q := secp256k1.IsogenySecp256k13iso(secp256k1.SSWU(fe))
+			uv := oracle.Mod(new(big.Int).SetBytes(u[i:i+48]), oracle.P)
+			qo, _ := oracle.SSWU(uv)
+
+			if got == nil {
+				got, want = q, oracle.Iso(qo)
+			} else {
+				got.Add(q)
+				want = oracle.Add(want, oracle.Iso(qo))
+			}
+		}
+	})
+	if pan {
+		c.Fail(fmt.Sprintf("hash_to_curve pipeline panicked on chosen uniform bytes %s: %v", cs.Uniform, pv), "h2c-pipeline-panic", nil)
+		return
+	}
+
+	if ok, why := mon.RawValid(got); !ok {
+		c.Fail("hash_to_curve pipeline (reduce, map, isogeny) on chosen uniform bytes yields an invalid point: "+why, "h2c-pipeline-invalid", nil)
+		return
+	}
+
+	if ok, why := mon.ElemIs(got, want); !ok {
+		c.Fail(fmt.Sprintf("hash_to_curve pipeline (reduce, map, isogeny) on chosen uniform bytes %s disagrees with RFC 9380: %s", cs.Uniform, why), "h2c-pipeline-value", nil)
+		return
+	}
+
+	c.Seen("pipeline", cs.Uniform)
+}
 
 // h2cInputs materialises the case's slices.
 func h2cInputs(cs *h2cCase, fill byte) (msg, dst, msgBack, dstBack []byte) {
@@ -356,6 +424,11 @@ func c08Run(c *mon.Ctx, csAny any) {
 		return
 	}
 
+	if cs.Fn == "pipeline" {
+		c08RunPipeline(c, cs)
+		return
+	}
+
 	msg, dst, _, _ := h2cInputs(cs, 0xa5)
 
 	c.Count("fn:" + cs.Fn)
@@ -433,7 +506,7 @@ func c08Run(c *mon.Ctx, csAny any) {
 	okVal, whyVal := mon.ElemIs(e, want)
 
 	if !okRaw || !okVal {
-		c.Fail(fmt.Sprintf("%s(msg[%d], dst[%d]) disagrees with RFC 9380: %s %s", cs.Fn, len(msg), len(dst), whyRaw, whyVal), "h2c-value:"+cs.Fn, h2cLocalise(cs, msg, dst, tr))
+		c.Fail(fmt.Sprintf("%s(msg[%d], dst[%d]) disagrees with RFC 9380: %s %s", cs.Fn, len(msg), len(dst), whyRaw, whyVal), "h2c-value:"+cs.Fn, map[string]any{"u": fmt.Sprint(tr.U)})
 		return
 	}
 
@@ -455,27 +528,6 @@ func c08Run(c *mon.Ctx, csAny any) {
 	if c.WantSample() && len(dst) > 255 {
 		c.Sample(map[string]any{"fn": cs.Fn, "msg_len": len(msg), "dst_len": len(dst), "layout": cs.Layout, "dst_prefix": mon.Trunc(cs.Dst, 40), "u0": fmt.Sprintf("%x", tr.U[0]), "expected_encode": mon.H(oracle.EncC(want)), "observed_encode": mon.H(e.Encode())})
 	}
-}
-
-// h2cLocalise compares the intermediate stages through the accessors, to say where a disagreement starts.
-func h2cLocalise(cs *h2cCase, msg, dst []byte, tr oracle.H2CTrace) map[string]any {
-	out := map[string]any{}
-
-	_, _ = mon.Call(func() {
-		l := uint(len(tr.Uniform))
-		u := secp256k1.VExpandXMD(msg, dst, l)
-		out["expand_message_xmd_matches"] = bytes.Equal(u, tr.Uniform)
-
-		for i := range tr.U {
-			fe := field.New().HashToFieldElement([48]byte(tr.Uniform[48*i : 48*i+48]))
-			out[fmt.Sprintf("u%d_matches", i)] = mon.FEVal(fe).Cmp(tr.U[i]) == 0
-			q := secp256k1.SSWU(mon.FE(tr.U[i]))
-			x, y, _ := secp256k1.VFE(q)
-			out[fmt.Sprintf("sswu%d_matches", i)] = mon.FEVal(x).Cmp(tr.Q[i].X) == 0 && mon.FEVal(y).Cmp(tr.Q[i].Y) == 0
-		}
-	})
-
-	return out
 }
 
 var _ = big.NewInt
